@@ -26,6 +26,8 @@ enum Fault {
     None,
     CapacityOverflow,
     DupInput,
+    /// the same cell twice, with two different (both satisfied) `since` values
+    DupInputOtherSince,
     UnknownInput,
     UnknownDep,
     Immature,
@@ -277,6 +279,7 @@ fn run_history(rep: &mut Report, seed: u64, len: usize) -> (Vec<String>, Vec<Str
                     Fault::None,
                     Fault::CapacityOverflow,
                     Fault::DupInput,
+                    Fault::DupInputOtherSince,
                     Fault::UnknownInput,
                     Fault::UnknownDep,
                     Fault::Immature,
@@ -327,6 +330,10 @@ fn run_history(rep: &mut Report, seed: u64, len: usize) -> (Vec<String>, Vec<Str
                                 .build();
                         }
                         Fault::DupInput => inputs.push(inputs[0].clone()),
+                        Fault::DupInputOtherSince => {
+                            // absolute block number 1: as satisfied as 0 is
+                            inputs.push(CellInput::new(ins[0].0.clone(), 1));
+                        }
                         Fault::UnknownInput => {
                             let pos = rng.below(inputs.len() as u64 + 1) as usize;
                             inputs.insert(
